@@ -10,16 +10,19 @@ Open Scope N_scope.
 Definition IS : N := 57346.   (* item separator *)
 
 (* oracle table: flat list tok, hex, fstr, tok, hex, fstr, ...  ("ERR" hex = not a float) *)
-Fixpoint tab_hex (t : list (list N)) (k : list N) : option (list N) :=
+(* float() and np.float64() ignore surrounding white space: look tokens up stripped *)
+Fixpoint tab_hex_raw (t : list (list N)) (k : list N) : option (list N) :=
   match t with
-  | a :: h :: _ :: t' => if str_eqb a k then (if str_eqb h (s2l "ERR") then None else Some h) else tab_hex t' k
+  | a :: h :: _ :: t' => if str_eqb a k then (if str_eqb h (s2l "ERR") then None else Some h) else tab_hex_raw t' k
   | _ => None
   end.
-Fixpoint tab_str (t : list (list N)) (k : list N) : list N :=
+Definition tab_hex (t : list (list N)) (k : list N) : option (list N) := tab_hex_raw t (strip k).
+Fixpoint tab_str_raw (t : list (list N)) (k : list N) : list N :=
   match t with
-  | a :: _ :: s :: t' => if str_eqb a k then s else tab_str t' k
+  | a :: _ :: s :: t' => if str_eqb a k then s else tab_str_raw t' k
   | _ => 63 :: k
   end.
+Definition tab_str (t : list (list N)) (k : list N) : list N := tab_str_raw t (strip k).
 Definition hex_is_zero (h : list N) : bool :=
   str_eqb h (s2l "0x0.0p+0") || str_eqb h (s2l "-0x0.0p+0").
 Definition tab_numeq (t : list (list N)) (a b : list N) : bool :=
